@@ -89,6 +89,23 @@ class ModelTable:
                 out.append(bc)
         return out
 
+    def package_bases(self, ci: ClassInfo, depth: int = 0) -> List[ClassInfo]:
+        """Every class of the package on the base chain of `ci` (model classes *and* plain mixins), nearest first;
+        the validation base class itself is excluded."""
+        out: List[ClassInfo] = []
+        if depth > 8:
+            return out
+        for b in ci.bases:
+            bc = self.resolve_class(ci.module.name, b)
+            if bc is None or bc is ci or bc.name == BASE_NAME:
+                continue
+            if bc not in out:
+                out.append(bc)
+            for x in self.package_bases(bc, depth + 1):
+                if x not in out:
+                    out.append(x)
+        return out
+
     # ------------------------------------------------------------------ building
     def _build(self, ci: ClassInfo) -> ModelInfo:
         fields: Dict[str, FieldInfo] = {}
